@@ -190,7 +190,7 @@ func TestC10(t *testing.T) {
 			}
 			c.Sc.Backend.Kind = "error"
 			c.Sc.Backend.Msgs, c.Sc.Backend.MsgRaw = nil, nil
-			c.Sc.Backend.Err = &ErrSpec{Code: int64(rapid.IntRange(1, 16).Draw(t, "error_body_code")), Message: strings.Repeat("e", c.Payload)}
+			c.Sc.Backend.Err = &ErrSpec{Code: int64(rapid.SampledFrom([]int{1, 2, 3, 4, 5, 6, 7, 9, 10, 11, 12, 13, 14, 15, 16}).Draw(t, "error_body_code")) /* not 8: a backend's own resource_exhausted could not be told from a rejection */, Message: strings.Repeat("e", c.Payload)}
 			c.Sc.Backend.Compress, c.Sc.Backend.CompressError = c.Compressible, c.Compressible
 			c.Sc.Backend.WriteChunk = rapid.SampledFrom([]int{0, 100, 200, 1000}).Draw(t, "error_body_chunk")
 			c.Sc.Config.Protocols = []string{rapid.SampledFrom([]string{ProtoConnect, ProtoREST}).Draw(t, "error_body_target")}
@@ -222,6 +222,26 @@ func maxInts(xs []int) int {
 		}
 	}
 	return m
+}
+
+// responseFarBelow: a well-formed response none of whose messages comes near the limit in any encoding.
+func responseFarBelow(sc *Scenario, out *Outcome, L int) bool {
+	if sc.Backend.Kind != "ok" || sc.Backend.Fault != nil || out.Sent == nil || out.Sent.MI == nil {
+		return false
+	}
+	for _, mb := range sc.Backend.Msgs {
+		m := newMessage(out.Sent.MI.Out)
+		if proto.Unmarshal(mb, m) != nil {
+			return false
+		}
+		for _, codec := range []string{CodecProto, CodecJSON} {
+			p, err := encodeMsg(codec, JSONStyle{EmitUnpopulated: true, Indent: true}, m)
+			if err != nil || len(p) > L/2 {
+				return false
+			}
+		}
+	}
+	return true
 }
 
 func checkC10(c *sizeCase) *CheckResult {
@@ -284,7 +304,13 @@ func checkC10(c *sizeCase) *CheckResult {
 	}
 	exhausted := cv.Err != nil && cv.Err.Code == 8
 	// A4: a size rejection does not deliver the oversized message
-	if exhausted && c.Direction == "request" && view != nil {
+	// (the rejection has to be about the request: the transcoder had to hold the request message - it
+	// changed codec or compression, or rebuilt it from or into a URL - or else nothing of the response
+	// comes near the limit; a request that is only re-framed streams through, and the same RPC may
+	// still be refused for the size of its response)
+	reqConverted := view != nil && (view.Codec != sc.Client.Codec || view.Compression != effectiveCompression(&sc.Client, out.Sent) ||
+		sc.Client.Form == FormConnectGet || sc.Client.Form == FormREST || view.Protocol == ProtoREST)
+	if exhausted && c.Direction == "request" && view != nil && (reqConverted || responseFarBelow(sc, out, L)) {
 		for i, p := range view.Payloads {
 			if len(p) > L && i < len(view.Msgs) && view.Msgs[i] != nil {
 				res.violate("delivered_despite_rejection", sig+":a4", "limit %d: RPC rejected with resource_exhausted but the backend received a complete message of %d bytes", L, len(p))
